@@ -14,7 +14,7 @@ TRUSTED_BASE = [
 
 # components whose real code keeps package-level state (marshaller pools): one case at a time per
 # process; the check script shards them over processes instead of goroutines
-SERIAL = {"pipeline": 8, "marshal": 4}
+SERIAL = {"pipeline": 8, "pipefault": 8, "marshal": 4}
 
 PROPS = {
     "C01": {
@@ -169,6 +169,21 @@ PROPS = {
         "partial": "the tick DECISION is proved for every open set, clock reading and Go map/heap order (validTick); that a tick is "
                    "actually handled within one tick period of becoming due is Go's select/ticker (ticker competes with input in one "
                    "select; not exhibited by the model) - the harness fires the real tick handler at chosen points and compares the flush set",
+    },
+    "C17": {
+        "modules": ["PgBifrost.Props.C17"],
+        "components": ["pipefault"],
+        "required_theorems": ["PgBifrost.Props.C17.stage_death_cancels", "PgBifrost.Props.C17.stages_good",
+                              "PgBifrost.Props.C17.stages_complete", "PgBifrost.Props.C17.pg_bifrost_fail_stop",
+                              "PgBifrost.Props.C17.no_half_dead", "PgBifrost.Props.C17.main_waits_then_exits"],
+        "partial": "proved in a process model instantiated with structural facts regenerated from every stage's source "
+                   "(first defer is shutdown(); shutdown calls CancelFunc before a direct recover()); that Go runs deferred "
+                   "functions on return/panic and that a direct recover() contains a panic is the Go runtime (modelled). 'Nothing "
+                   "acknowledged beyond what the sink accepted' after a fault is the C01 invariant, judged by the pipefault "
+                   "harness: real stages assembled, one injected fault (sink dead past its retry budget, sink panic, closed "
+                   "internal channel) at a random point, monitors: termination signal raised iff the fault manifested, every "
+                   "acknowledgement safe. The free-running ProgressTracker goroutine is not part of that harness (see DESIGN §10).",
+        "assumptions": ["Go defer/recover semantics", "one fault per run"],
     },
     "C18": {
         "modules": ["PgBifrost.Props.C18"],
